@@ -22,7 +22,7 @@ theorem Runs.tryOk {G : GCtx} {A : Act} (hA : A.OK G) {ip nB ipAfter l : Nat} {s
     (hbody : Runs G.fr G.code G.lim (G.inTry A l stk).s A.fn A.rest A.mp (ip + 1) stk mem w (ip + 1 + nB) stk mem1 w1)
     (i1 : A.c[ip + 1 + nB]? = some (.popTry, sp2)) (i2 : A.c[ip + 1 + nB + 1]? = some (.jump ipAfter, sp3)) :
     Runs G.fr G.code G.lim G.s A.fn A.rest A.mp ip stk mem w ipAfter stk mem1 w1 := by
-  intro k
+  refine ⟨fun k => ?_, hbody.inv⟩
   obtain ⟨k1, e1⟩ := hbody (k + 1)
   refine ⟨1 + (k1 + (1 + 1)), ?_⟩
   rw [execHN_add, execHN_one, exec1H_of_next (mkSI_setTry G.code G.lim G.s A.fn ip A.rest A.mp k stk mem w A.c hA.code
@@ -69,7 +69,9 @@ theorem Runs.tryCatch {G : GCtx} {A : Act} (hA : A.OK G) {ip l slot : Nat} {stk 
     (h0 : 0 ≤ A.mp - (slot : Int)) (h1 : A.mp - (slot : Int) < (G.lim.memory : Int)) :
     Runs G.fr G.code G.lim G.s A.fn A.rest A.mp ip stk mem w (l + 2) stk
       (mem1.set (A.mp - (slot : Int)) (.ref w1.heap.size)) ⟨w1.heap.push (errCell msg tsp), w1.out⟩ := by
-  intro k
+  refine ⟨fun k => ?_, fun hi => (hbody.inv hi).push _ (fun fs h => by
+    cases h
+    exact ⟨rfl, rfl⟩)⟩
   obtain ⟨k1, s1, frames', ip', mp', xs, e1, e2⟩ := hbody (k + 1)
   refine ⟨1 + (k1 + (1 + (1 + 1))), ?_⟩
   rw [execHN_add, execHN_one, exec1H_of_next (mkSI_setTry G.code G.lim G.s A.fn ip A.rest A.mp k stk mem w A.c hA.code
